@@ -357,14 +357,15 @@ inductive Reader where
   | two (s : M2)
   | many (s : MK)
 
+def mkBufs (inputs : List (List Row)) (refills : List (List Nat)) : List Buf :=
+  (List.range inputs.length).map (fun i => Buf.fresh (inputs.getD i []) (refills.getD i []))
+
 def Reader.new (inputs : List (List Row)) (refills : List (List Nat)) : Reader :=
-  let bufs := (List.range inputs.length).map
-    (fun i => Buf.fresh (inputs.getD i []) (refills.getD i []))
-  match bufs with
+  match inputs with
   | [] => .empty
-  | [b] => .one b
-  | [a, b] => .two (M2.new a b)
-  | _ => .many (MK.new bufs)
+  | [a] => .one (Buf.fresh a (refills.getD 0 []))
+  | [a, b] => .two (M2.new (Buf.fresh a (refills.getD 0 [])) (Buf.fresh b (refills.getD 1 [])))
+  | _ => .many (MK.new (mkBufs inputs refills))
 
 /-- one `ReadRows` call. A single input is returned as is by `mergeRowReaders`; its source is
     modelled as delivering `min m (next refill size)` rows. -/
@@ -378,8 +379,8 @@ def Reader.readRows (r : Reader) (m : Nat) : List Row × Bool × Reader :=
       let want := match b.sizes with | [] => m | s :: _ => max 1 s
       let n := min m (min want b.src.length)
       (b.src.take n, false, .one { b with src := b.src.drop n, sizes := b.sizes.tail })
-  | .two s => let (o, e, s') := s.readRows m; (o, e, .two s')
-  | .many s => let (o, e, s') := s.readRows m; (o, e, .many s')
+  | .two s => ((s.readRows m).1, (s.readRows m).2.1, .two (s.readRows m).2.2)
+  | .many s => ((s.readRows m).1, (s.readRows m).2.1, .many (s.readRows m).2.2)
 
 /-- rows not yet emitted, per input -/
 def Reader.rem : Reader → List (List Row)
@@ -388,44 +389,42 @@ def Reader.rem : Reader → List (List Row)
   | .two s => [(s.r0.map Buf.rem).getD [], (s.r1.map Buf.rem).getD []]
   | .many s => s.bufs.map Buf.rem
 
-/-- a read session: one `ReadRows` per batch size, stopping at io.EOF. Returns the batches. -/
-def Reader.session : Reader → List Nat → List (List Row) × Reader
-  | r, [] => ([], r)
+/-- a read session: one `ReadRows` per batch size, stopping at io.EOF. Returns the batches, whether
+    io.EOF was reached, and the reader. -/
+def Reader.session : Reader → List Nat → List (List Row) × Bool × Reader
+  | r, [] => ([], false, r)
   | r, m :: ms =>
-    let (o, eof, r') := r.readRows m
-    if eof then ([o], r')
+    if (r.readRows m).2.1 then ([(r.readRows m).1], true, (r.readRows m).2.2)
     else
-      let (os, r'') := Reader.session r' ms
-      (o :: os, r'')
+      let rec_ := Reader.session (r.readRows m).2.2 ms
+      ((r.readRows m).1 :: rec_.1, rec_.2)
 
 /-! ## dedupe (dedupe.go:68-107) -/
 
 /-- dedupe.go:92-99: partition of one batch into `uniq` and `dupe`, `lastRow` carried -/
 def dedupeBatch : Option Row → List Row → List Row × List Row × Option Row
   | last, [] => ([], [], last)
-  | last, row :: rows =>
-    match last with
-    | some l =>
-      if cmp row l = 0 then
-        let (u, d, last') := dedupeBatch last rows
-        (u, row :: d, last')
-      else
-        let (u, d, last') := dedupeBatch (some row) rows
-        (row :: u, d, last')
-    | none =>
-      let (u, d, last') := dedupeBatch (some row) rows
-      (row :: u, d, last')
+  | none, row :: rows =>
+    let r := dedupeBatch (some row) rows
+    (row :: r.1, r.2.1, r.2.2)
+  | some l, row :: rows =>
+    if cmp row l = 0 then
+      let r := dedupeBatch (some l) rows
+      (r.1, row :: r.2.1, r.2.2)
+    else
+      let r := dedupeBatch (some row) rows
+      (row :: r.1, r.2.1, r.2.2)
 
 /-- dedupe.go:78-107 `deduplicate(rows)`: the rearranged slice `uniq ++ dupe`, `len(uniq)`, new `lastRow` -/
 def deduplicate (last : Option Row) (rows : List Row) : List Row × Nat × Option Row :=
-  let (u, d, last') := dedupeBatch last rows
-  (u ++ d, u.length, last')
+  let r := dedupeBatch last rows
+  (r.1 ++ r.2.1, r.1.length, r.2.2)
 
 /-- dedupe.go:18-27 over the batches the underlying reader delivers: what the caller receives -/
 def dedupeReader : Option Row → List (List Row) → List Row
   | _, [] => []
   | last, b :: bs =>
-    let (out, n, last') := deduplicate last b
-    out.take n ++ dedupeReader last' bs
+    let r := deduplicate last b
+    r.1.take r.2.1 ++ dedupeReader r.2.2 bs
 
 end PqModel.Merge
